@@ -128,8 +128,75 @@ def _validate_chunk(module, cfg_name, path, nrec, workers, timeout, extra_env):
     return res
 
 
+def corrupt_number(x):
+    """First non-negative integer found in a nested structure is increased by one (depth first)."""
+    if isinstance(x, bool):
+        return x, False
+    if isinstance(x, int):
+        if x >= 0:
+            return x + 1, True
+        return x, False
+    if isinstance(x, list):
+        out = list(x)
+        for i, v in enumerate(out):
+            nv, done = corrupt_number(v)
+            if done:
+                out[i] = nv
+                return out, True
+        return out, False
+    if isinstance(x, dict):
+        out = dict(x)
+        for k, v in out.items():
+            nv, done = corrupt_number(v)
+            if done:
+                out[k] = nv
+                return out, True
+        return out, False
+    return x, False
+
+
+def make_canary(records, fields):
+    """A copy of a real record with one recorded value corrupted: the trace spec must reject it
+    (demonstrates that the specification is bound to the recorded fields)."""
+    import copy
+    for rec in records[:200]:
+        for f in fields:
+            if callable(f):
+                c = f(copy.deepcopy(rec))
+                if c is not None:
+                    c["id"] = "CANARY"
+                    return c
+                continue
+            if f in rec:
+                nv, done = corrupt_number(rec[f])
+                if done:
+                    c = copy.deepcopy(rec)
+                    c[f] = nv
+                    c["id"] = "CANARY"
+                    return c
+    return None
+
+
 def validate_traces(module, cfg_name, records, chunk=1500, parallel=8, workers=2, timeout=1800,
-                    extra_env=None, steps_per_record=None):
+                    extra_env=None, steps_per_record=None, canary_fields=None):
+    """(see below)  canary_fields: fields to corrupt for the binding self-test."""
+    canary = make_canary(records, canary_fields) if canary_fields else None
+    if canary is not None:
+        records = [canary] + list(records)
+    res = _validate_traces(module, cfg_name, records, chunk, parallel, workers, timeout, extra_env)
+    if canary_fields:
+        if canary is None:
+            res["canary"] = "no suitable record"
+        elif "CANARY" not in res["fails"]:
+            raise TLCError("binding self-test failed: %s accepted a corrupted record (%s)" % (module, canary_fields))
+        else:
+            res["canary"] = res["fails"].pop("CANARY")
+            res["judged"] -= 1
+    return res
+
+
+def _validate_traces(module, cfg_name, records, chunk=1500, parallel=8, workers=2, timeout=1800,
+                     extra_env=None):
     """Act T: have TLC judge every record with the trace spec spec/<module>.tla.
 
     records: list of JSON-able dicts, each with a unique 'id'.
